@@ -26,7 +26,7 @@ for pid in ids:
         "level_claimed": {
             "category": "proof",
             "text": LEVEL_TEXT.get(pid, cfg.get("explanation", "")),
-            "design_ref": "DESIGN.md §4 %s" % pid,
+            "design_ref": "DESIGN.md §4 %s and §8.4" % pid,
         },
         "level_note": "Trusted: Lean 4.33 kernel (axioms propext, Classical.choice, Quot.sound only); the Go-subset->Lean translator "
                       "(tools/cmd/extract); the harness (generator, go/types fact extraction, summariser, comparison); Go toolchain as "
